@@ -163,6 +163,11 @@ class NonFinite(Exception):
     pass
 
 
+class GeneratorDomainError(Exception):
+    """the generator produced an input outside the property's domain (n_e, t_e > 0, donor and species densities >= 0):
+    a fault of the harness, reported as BROKEN-CHECK, never as a property violation"""
+
+
 STRUCTURES = ["indep", "same_net", "const_net", "same_ne", "sep2d", "same_te", "const_donor"]
 NEEDS_DONOR = ("same_net", "const_net", "sep2d", "const_donor")
 
@@ -263,13 +268,10 @@ def run_case(ib, rec, case, rng_mod):
         fy = np.array([-1.0 + 0.875 * i + rng.randint(0, 4) / 16.0 for i in range(shape[1])])
         free_variable = (fx, fy)
 
-    def make_profile(lo, hi, positive=True, allow_zero=False, pattern="indep"):
+    def make_profile_once(lo, hi, draws, pattern):
         """returns (representation handed to the implementation, flat list of point values).
         pattern: indep (every point its own value), pairs (flat points 2j, 2j+1 share a value), const,
         x_only / y_only (2-D: the value depends on one coordinate only)"""
-        draws = [quant(rnd(lo, hi)) for _ in range(npts)]
-        if allow_zero and pattern == "indep" and rng.random() < 0.3:
-            draws[rng.randrange(npts)] = 0.0
         if pattern == "pairs":
             flatv = [draws[k // 2] for k in range(npts)]
         elif pattern == "const":
@@ -319,6 +321,24 @@ def run_case(ib, rec, case, rng_mod):
                 f = _arg2d(quant(rnd(lo, hi)) + c2, c1, c2)     # y >= -1 on the grid
             return f, [float(f(float(x), float(y))) for x in free_variable[0] for y in free_variable[1]]
         raise AssertionError(rep)
+
+    def make_profile(lo, hi, positive=True, allow_zero=False, pattern="indep"):
+        """make_profile_once, then the values the representation actually yields at the evaluated points are read back
+        and checked against the domain: a value meant to be exactly zero must read back as exactly 0.0 and no value may
+        be negative (linear interpolation at a knot next to a large neighbour can return -ulp instead of 0); offending
+        draws are replaced by positive ones and the representation is rebuilt.  Exact zeros therefore stay a regular
+        boundary class wherever the representation reproduces them exactly (arrays always, functions when exact)."""
+        draws = [quant(rnd(lo, hi)) for _ in range(npts)]
+        if allow_zero and pattern == "indep" and rng.random() < 0.3:
+            draws[rng.randrange(npts)] = 0.0
+        for attempt in range(8):
+            r, pts_v = make_profile_once(lo, hi, draws, pattern)
+            bad = [k for k, v in enumerate(pts_v) if v < 0.0 or (lo > 0.0 and v <= 0.0 and 0.0 not in draws) or
+                   (0.0 in draws and v != 0.0 and abs(v) < 1e-9 * hi)]
+            if not bad:
+                return r, pts_v
+            draws = [quant(rnd(max(lo, 0.01 * hi), hi)) if d == 0.0 else d for d in draws]
+        raise GeneratorDomainError("could not build a %s profile in [%r, %r] inside the domain: %r" % (rep, lo, hi, pts_v))
 
     # structure of the profile: which inputs share values between points (every point is still compared
     # with the model evaluated at ITS OWN (n_e, t_e, n_D))
@@ -408,8 +428,30 @@ def run_case(ib, rec, case, rng_mod):
                 case.setdefault("species_orders", []).append("ndarray")
                 species_reps.append(arr.copy())
             species_pts.append([[float(v) for v in arr[c].flat] for c in range(zs + 1)])
+    # species read back through interpolators may come out as -ulp next to a large neighbour: hand those over as arrays
+    for si in range(len(species_reps)):
+        if any(v < 0.0 for row in species_pts[si] for v in row):
+            species_pts[si] = [[max(v, 0.0) for v in row] for row in species_pts[si]]
+            species_reps[si] = reorder({c: np.array(row).reshape(shape) for c, row in enumerate(species_pts[si])})
+            case.setdefault("species_sources", []).append("clamped-to-array")
     if rng.random() < 0.5:
         species_reps = tuple(species_reps)        # the container of species: list or tuple
+    # ---- the property's domain, asserted on the values every representation yields at every evaluated point ----
+    dom = []
+    if not all(v > 0.0 and np.isfinite(v) for v in ne_pts):
+        dom.append("n_e <= 0: %r" % ne_pts)
+    if not all(v > 0.0 and np.isfinite(v) for v in te_pts):
+        dom.append("t_e <= 0: %r" % te_pts)
+    if not all(v >= 0.0 and np.isfinite(v) for v in nd_pts):
+        dom.append("donor density < 0: %r" % nd_pts)
+    if not all(v > 0.0 and np.isfinite(v) for v in nel_pts):
+        dom.append("element density <= 0: %r" % nel_pts)
+    if not all(v >= 0.0 and np.isfinite(v) for sp in species_pts for row in sp for v in row):
+        dom.append("species density < 0")
+    if not (len(ne_pts) == len(te_pts) == len(nd_pts) == len(nel_pts) == npts):
+        dom.append("point counts differ")
+    if dom:
+        raise GeneratorDomainError("; ".join(dom))
 
     points = []
     for k in range(npts):
